@@ -2840,3 +2840,29 @@ Q(name="e2_first_packet_close_gets_drain_timer", props=["C08"], func=r"connectio
   functions=["Connection::handle_first_packet"], pre=lambda c: eq(c.inp("*_1.%d#discr" % c.field("connection/mod.rs", "Connection", "state"), I64), bv(0)), post=fpc_post,
   bounds="every outcome of processing the connection-creating Initial (process_decrypted_packet opaque: it may leave the connection in any state): when it succeeds and leaves the connection closed - the packet carried CONNECTION_CLOSE - close_common and set_close_timer run, as they do for every later packet in handle_packet, so that the connection drains within three probe timeouts instead of waiting for the idle timer",
   replay=("conn_first_packet_close_native", lambda m: [dict(x=0)]))
+
+
+# ------------------------------------------------------------------ C09: a CID that Endpoint::connect put into the routing table belongs to a connection afterwards - or is taken out again
+def cn_post(c, p):
+    st = p.p.state
+    if p.p.outcome != "return":
+        return "true"
+    nc = p.called(r"Endpoint::new_cid$")
+    if not nc:
+        return "true"
+    if len(nc) != 1:
+        return "false"
+    cid = nc[0][2]
+    ac = p.called(r"Endpoint::add_connection$")
+    rt = p.called(r"ConnectionIndex::retire$")
+    if ac:
+        # recorded as the connection's first local CID
+        return "true" if (len(ac) == 1 and ("agg", cid) in ac[0][1]) else "false"
+    return "true" if (len(rt) == 1 and rt[0][1][1] == ("agg", cid)) else "false"
+
+
+Q(name="e2_endpoint_connect_cid_leak", props=["C09"], func=r"endpoint\.rs[^>]*>::connect$",
+  allowed_panics=r".", ignore_untranslatable=r".",
+  functions=["Endpoint::connect"], pre=lambda c: "true", post=cn_post,
+  bounds="every way out of Endpoint::connect after a local CID was generated (new_cid routes it to the handle the connection WOULD get): the CID is either handed to add_connection as the new connection's CID or retired from the routing table - in particular when the TLS session cannot be started (invalid server name); otherwise it would route datagrams to whichever connection is given that handle next; callees opaque",
+  replay=("endpoint_connect_failure_native", lambda m: [dict(x=0)]))
